@@ -95,7 +95,7 @@ Vals(at) ==
     [] at = "a.required" -> {FALSE}
     [] at \in {"a.title", "a.desc", "title", "desc", "name"} -> Texts
     [] at = "a.checks" -> CheckSeqs
-    [] at = "a.key" -> {"a'b", "a b", "A", "1"}
+    [] at = "a.key" -> {"a'b", "a b", "A", "1", "#0", "#t"}     \* "#0": the integer 0, "#t": the tuple ("x", "a") (MultiIndex columns)
     [] at = "index" -> IndexChoices
     [] at = "checks" -> {<<GE(0)>>, <<GE(0), LE(5)>>, <<[GE(0) EXCEPT !.ina = FALSE]>>}
     [] at = "dtype" -> {"int64", "float64"}
